@@ -693,7 +693,7 @@ func TestCheck(t *testing.T) {
 		"an RRSet that holds an alias-mode record is read as an alias wherever the record stands in the answer (RFC 9460 section 2.4.1: the service-mode records of such a set are ignored)",
 		"address order inside an RRSet is not judged; ties in priority may come in any order",
 		"port 0 is treated as 'no port given'; an rcode other than NXDOMAIN on an HTTPS lookup may be reported as an error or ignored, errors on lookups of service targets may be ignored",
-		"'together with their targets' addresses' is read as: every address the resolver was actually given for the target of a returned record - an A (AAAA) query for that target which the server log shows answered NOERROR must have its addresses in Additional[target] even when the AAAA (A) query for the same target failed; a family whose own query failed or was never sent is not demanded, and nothing the zone does not give may appear")
+		"'together with their targets' addresses': for a target whose A and AAAA lookups both succeed, exactly the zone's addresses; when one family's lookup fails, what the other family delivered is either all in Additional[target] or the target is given up (the statement does not say which) - never a part of it, and nothing the zone does not give may appear")
 
 	// One listener per worker for the whole run (a listener per case exhausts the loopback port space).
 	workers := runtime.GOMAXPROCS(0)
